@@ -503,8 +503,11 @@ impl Rig {
                 let _ = catch_future(pc.send_raw_rtp(pk)).await;
             }
             "InClearRtp" => {
-                let d = self.in_packet("clear", k).marshal().unwrap();
-                self.to_a(&d).await;
+                // a burst: gates that only drop the first few unauthenticated packets are reached as well
+                for _ in 0..5 {
+                    let d = self.in_packet("clear", k).marshal().unwrap();
+                    self.to_a(&d).await;
+                }
             }
             "InClearRtcp" => {
                 // feedback for A's sender: accepted, the picture-loss indication surfaces on A's feedback channel and
@@ -523,7 +526,13 @@ impl Rig {
                     pk.push(RtcpPacket::GenericNack(GenericNack { sender_ssrc: 3405691582, media_ssrc: 10000, lost_packets: seqs }));
                 }
                 let d = marshal_rtcp_packets(&pk).unwrap();
-                self.to_a(&d).await;
+                for i in 0..5u8 {
+                    let mut d2 = d.clone();
+                    if i > 0 && self.keyed {
+                        d2.extend(std::iter::repeat(i).take(10)); // one SHA1_80 tag's worth of trailer
+                    }
+                    self.to_a(&d2).await;
+                }
             }
             "InForged" => {
                 let pk = self.in_packet("forged", k);
